@@ -256,6 +256,10 @@ ALIAS_POOL = ["it's", 'a"b', 'c\\d', 'x\ny', '{z}', 'é.ü', 'tab\there', "'", '
               'key with space', 'ünï-cødé', '$ref', 'a\\', "\\'", 'null', 'True', '0', ' lead', 'trail ', 'a\x00b', '日本']
 
 
+UNICODE_CLASS_REPS = [0x01, 0x1f, 0x7f, 0x85, 0xa0, 0xad, 0x301, 0x200b, 0x200d, 0x200f, 0x2028, 0x2029, 0xfeff, 0xe000,
+                      0xfffd, 0x4e2d, 0xffff, 0x10000, 0x1f511, 0x1f600, 0x20000, 0x1d4b3, 0xe0001, 0x10ffff]
+
+
 def conv_num(tok):
     try:
         return int(tok)
@@ -345,9 +349,20 @@ def run_paths_and_aliases(ctx):
     # alias tasks
     alias_tasks = []
     pool = list(ALIAS_POOL)
+    # one representative per character class of "all printable characters ... unicode" and of the
+    # classes Python's repr / str.isprintable / JSON escaping treat differently: C0/C1 controls, NBSP,
+    # line/paragraph separators, combining marks, zero-width / bidi marks, BOM, private use, BMP CJK,
+    # and NON-BMP planes (emoji, CJK ext-B, mathematical letters) where UTF-16 based escaping
+    # (json.dumps surrogate pairs) differs from Python string literals
+    for cp in UNICODE_CLASS_REPS:
+        c = chr(cp)
+        pool.extend([c, 'a' + c + 'b'])
+    uni = [chr(cp) for cp in UNICODE_CLASS_REPS]
+    for _ in range(12 if ctx.tier == 'quick' else 120):
+        pool.append(''.join(r.choice(uni + list('ab\'"\\')) for _ in range(r.choice([2, 3, 5]))))
     for _ in range(30 if ctx.tier == 'quick' else 300):
         pool.append(''.join(r.choice('ab\'"\\\n{}.[] é$%') for _ in range(r.choice([1, 2, 4, 7]))))
-    for i in range(60 if ctx.tier == 'quick' else 600):
+    for i in range(110 if ctx.tier == 'quick' else 900):
         k = r.choice([1, 1, 2, 3])
         al = []
         while len(al) < k:
